@@ -147,7 +147,7 @@ def run(ctx):
            at=alls[0][1].span if alls else None, assignments=len(alls))
     if alls:
         sinks_all = [(b, o.span, 'min_block_number = Some(ss.block_number)') for b, o in alls]
-        ctx.guard('C09.r2', F, lambda k, t: k.endswith('Option::unwrap_or') and F.locals.get(int(t.dest.strip()[1:]), '') == 'bool', 'true', sinks_all,
+        ctx.guard('C09.r2', F, lambda k, t: (k.endswith('Option::unwrap_or') or k.endswith('Option::map_or') or k.endswith('Option::is_none_or') or k.endswith('Option::map_or_else')) and t.dest and F.locals.get(int(t.dest.strip()[1:]), '') == 'bool', 'true', sinks_all,
                   unconditional=True, gname='min_block_number.map(|n| n > ss.block_number).unwrap_or(true)')
     parts = assigns.get('Partial', [])
     po = set()
